@@ -150,20 +150,20 @@ Proof. intros (_ & _ & [(-> & _)|(_ & -> & Hl & _)]) Hne; [congruence|auto]. Qed
 
 Theorem sstep_frame_HA w o out w' : swinv w -> sl_step cmp pred w SHA o = Ok (out, w') -> sframe_ok w w' out.
 Proof.
-  intros [Hk Hm (la & lb & R1 & R2 & HP)] E. destruct w as [s1 s2 a]. cbn [swa swb swal] in *.
+  intros [Hk (la & lb & R1 & R2 & HP)] E. destruct w as [s1 s2 a]. cbn [swa swb swal] in *.
   assert (Hown : slown a s1 la (sblocks s2 lb)) by (split; assumption).
   destruct o; cbn [sl_step swget swother swset swset2 swa swb swal] in E.
   (* the bulk copies need the invariant (cleanup of the external chain) *)
   23:{ destruct lb as [|q tb].
        - rewrite (sadd_all_empty_src _ _ _ R2) in E. cbn [bind] in E. inversion E; subst. intros H; congruence.
-       - destruct (sadd_all_spec s1 la s2 (q :: tb) a _ R1 R2 Hown Hm ltac:(discriminate)) as (st & s1' & a' & E1 & Hb).
+       - destruct (sadd_all_spec s1 la s2 (q :: tb) a _ R1 R2 Hown ltac:(discriminate)) as (st & s1' & a' & E1 & Hb).
          rewrite E1 in E. cbn [bind] in E. inversion E; subst. intros Hne. destruct (sbulk_frame _ _ _ _ _ _ _ _ _ Hb Hne) as [-> Hl]. auto. }
   23:{ destruct lb as [|q tb].
        - rewrite (sadd_all_at_empty_src _ _ _ _ R2) in E. cbn [bind] in E. inversion E; subst. intros H; congruence.
        - destruct (N.leb_spec (lenN la) i) as [Hi|Hi].
          + rewrite (sadd_all_at_out s1 la s2 (q :: tb) a i R1 R2 ltac:(discriminate) Hi) in E. cbn [bind] in E. inversion E; subst. intros _; auto.
          + destruct (split_at la i Hi) as (A & [b db] & B' & -> & <-).
-           destruct (sadd_all_at_spec s1 A b db B' s2 (q :: tb) a _ R1 R2 Hown Hm ltac:(discriminate)) as (st & s1' & a' & E1 & Hb).
+           destruct (sadd_all_at_spec s1 A b db B' s2 (q :: tb) a _ R1 R2 Hown ltac:(discriminate)) as (st & s1' & a' & E1 & Hb).
            rewrite E1 in E. cbn [bind] in E. inversion E; subst. intros Hne. destruct (sbulk_frame _ _ _ _ _ _ _ _ _ Hb Hne) as [-> Hl]. auto. }
   (* everything else: by inspection of the code, every non-OK return hands back the unchanged list *)
   all: unfold sl_add, sl_add_first, sl_add_last, sl_add_at, sl_remove, sl_remove_at, sl_remove_first, sl_remove_last,
